@@ -31,10 +31,13 @@ CHECKS = {
         "result kinds, shuffle/flat/split) are decided against a model that "
         "places each requested result at its sorted-union coordinates and "
         "demands an all-missing placeholder of the result's shape elsewhere; "
-        "the call log must be exactly the requested settings.",
-        "Uniform keys and per-argument sortable values (implicit "
-        "preconditions of the code); None or NaN accepted for bool/str "
-        "elements inside tuples.",
+        "the call log must be exactly the requested settings.  Two further "
+        "phases: case arguments mixing numbers and strings (order-free "
+        "multiset oracle) and several calls on one Runner / Harvester "
+        "(nothing given to one call reaches the next).",
+        "Uniform keys; where the values of one argument cannot be sorted the "
+        "axis order is unspecified and only order-free facts are checked; "
+        "None or NaN accepted for bool/str elements inside tuples.",
         "DESIGN.md section 4, C02",
     ),
     "C03": (
@@ -46,7 +49,9 @@ CHECKS = {
         "constants that do or do not name a dimension, resources, attrs) "
         "through eleven entry points with shuffle and a permuting executor; "
         "each Dataset is read back point by point by label, each DataFrame "
-        "row is recomputed from its own arguments.",
+        "row is recomputed from its own arguments.  A second phase sweeps "
+        "Dataset/DataArray-valued functions whose internal coordinate "
+        "labels depend on the arguments (label-wise outer join expected).",
         "One value family per swept argument; xarray/pandas selection is "
         "trusted as the reader.",
         "DESIGN.md section 4, C03",
@@ -313,7 +318,7 @@ CHECKS = {
         "regex/Fraction reader of the produced string.  Gives high confidence "
         "over the stated domain, not a proof.",
         "Trusts Python's float formatting and the reader in xv/oracle_c20.py; "
-        "err limited to normal doubles; ties accepted either way.",
+        "err >= 1e-300 (sub-normal errors have fewer than two significant digits), up to the largest finite double; ties accepted either way.",
         "DESIGN.md section 4, C20",
     ),
 }
